@@ -147,9 +147,9 @@ func (n *fakeNode) GetPredecessor() (chord.VNode, error) { return nil, nil }
 func (n *fakeNode) RequestToJoin(chord.VNode) (chord.VNode, []chord.VNode, error) {
 	return nil, nil, errors.New("fake: no membership")
 }
-func (n *fakeNode) FinishJoin(bool, bool) error       { return errors.New("fake: no membership") }
-func (n *fakeNode) RequestToLeave(chord.VNode) error  { return errors.New("fake: no membership") }
-func (n *fakeNode) FinishLeave(bool, bool) error      { return errors.New("fake: no membership") }
+func (n *fakeNode) FinishJoin(bool, bool) error      { return errors.New("fake: no membership") }
+func (n *fakeNode) RequestToLeave(chord.VNode) error { return errors.New("fake: no membership") }
+func (n *fakeNode) FinishLeave(bool, bool) error     { return errors.New("fake: no membership") }
 
 // snapshot renders the complete observable KV content (simple values, prefix
 // children, held leases) in a canonical form.
@@ -249,8 +249,8 @@ func (t *fakeTransport) DialStream(ctx context.Context, peer *protocol.Node, kin
 	return t.dialFn(ctx, peer, kind)
 }
 func (t *fakeTransport) AcceptStream() <-chan *transport.StreamDelegate { return t.accept }
-func (t *fakeTransport) ListConnected() []transport.ConnectedPeer         { return nil }
-func (t *fakeTransport) SupportDatagram() bool                            { return true }
+func (t *fakeTransport) ListConnected() []transport.ConnectedPeer       { return nil }
+func (t *fakeTransport) SupportDatagram() bool                          { return true }
 func (t *fakeTransport) ReceiveDatagram() <-chan *transport.DatagramDelegate {
 	return make(chan *transport.DatagramDelegate)
 }
